@@ -25,7 +25,7 @@ pub fn profile_of(s: &str) -> Profile {
     match s { "types" => Profile::Types, "none" => Profile::NoneHeavy, "lazy" => Profile::Lazy, "paths" => Profile::Paths, _ => Profile::Arith }
 }
 
-pub struct Gen { pub rng: StdRng, pub profile: Profile }
+pub struct Gen { pub rng: StdRng, pub profile: Profile, stash: Vec<(Ty, Expr)> }
 
 const STRS: &[&str] = &["", "a", "A", "abc", " a ", "1", "-7", "+5", "1.5", "true", "x y", "é", "ß", "aBc", "\u{3000}z ", "12abc", "170141183460469231731687303715884105728", "1e5", "inf", "NaN", ".5", "5.", "1_0", "0x1",
     "the quick brown fox jumps", "  Padded Value With Spaces\t ", "quick brown", "ÀÉÎõü straße ÿµ×÷ªº MiXeD case 0123456789", "0123456789012345678", "aaaaaaaaaaaaaaaaaaaaaaaaaaaaaaaaab", "aaaaaaaaaaaaaaaaab"];
@@ -33,13 +33,13 @@ const DEC_STRS: &[&str] = &["1", "1.50", "-2.5", "0.1", "abc", "", "792281625142
 const DATE_STRS: &[&str] = &["1970-01-01T00:00:00Z", "2015-07-30T03:26:13Z", "2015-07-30T03:26:13.5+02:00", "1969-12-31T23:59:59.999999999Z", "2000-02-29T12:00:00-05:30", "2015-07-30", "2015-07-30T03:26:13", "2015-13-01T00:00:00Z", "2015-02-30T00:00:00Z", "abc", "1", ""];
 
 impl Gen {
-    pub fn new(seed: u64, profile: Profile) -> Self { Gen { rng: StdRng::seed_from_u64(seed), profile } }
+    pub fn new(seed: u64, profile: Profile) -> Self { Gen { rng: StdRng::seed_from_u64(seed), profile, stash: Vec::new() } }
     fn p(&mut self, prob: f64) -> bool { self.rng.gen::<f64>() < prob }
     pub fn pick<T: Copy>(&mut self, xs: &[T]) -> T { xs[self.rng.gen_range(0..xs.len())] }
     pub fn pick_ty(&mut self) -> Ty { self.pick(&TYS) }
 
     pub fn int(&mut self) -> i128 {
-        let bounds: [i128; 22] = [0, 1, -1, 2, 3, 7, -7, 10, 255, 1 << 15, 1 << 31, (1 << 63) - 1, 1 << 63, -(1 << 63), 1 << 64, 1 << 96, i128::MAX, i128::MIN,
+        let bounds: [i128; 28] = [15000000000000000000, u64::MAX as i128, 9007199254740993, 1000000000000000, 4294967296, -15000000000000000000, 0, 1, -1, 2, 3, 7, -7, 10, 255, 1 << 15, 1 << 31, (1 << 63) - 1, 1 << 63, -(1 << 63), 1 << 64, 1 << 96, i128::MAX, i128::MIN,
             9223372036854775, 8210266876799, -8334601228800, 15250284452];
         match self.rng.gen_range(0..10) {
             0..=3 => self.pick(&bounds),
@@ -50,10 +50,14 @@ impl Gen {
         }
     }
     pub fn float(&mut self) -> f64 {
-        let pool = [0.0, -0.0, 1.0, -1.0, 0.5, 1.5, 2.5, -2.5, 3.0, 0.1, 9007199254740992.0, 9.223372036854775807e18, 1.7014118346046923e38, 1e40, f64::MAX, 5e-324, f64::INFINITY, f64::NEG_INFINITY, f64::NAN, 7.25, 1e-7];
-        match self.rng.gen_range(0..10) {
+        let pool = [0.0, -0.0, 1.0, -1.0, 0.5, 1.5, 2.5, -2.5, 3.0, 0.1, 9007199254740992.0, 9.5e18, 1.5e19, 1e15, 123456789012345680.0, 7.9e28, 1e-10, 2.5e-20, 9.223372036854775807e18, 1.7014118346046923e38, 1e40, f64::MAX, 5e-324, f64::INFINITY, f64::NEG_INFINITY, f64::NAN, 7.25, 1e-7];
+        match self.rng.gen_range(0..12) {
             0..=4 => self.pick(&pool),
             5..=6 => (self.rng.gen_range(-2000..2000) as f64) / 8.0,
+            // a random significand at a moderate binary exponent: the range in which float -> decimal conversion is busy
+            10 => (self.rng.gen_range(1..(1i64 << 53)) as f64) * 2f64.powi(self.rng.gen_range(-150..45)) * if self.p(0.5) { -1.0 } else { 1.0 },
+            // whole numbers between the integer widths (2^53 .. 2^96)
+            11 => ((self.rng.gen::<u64>() >> self.rng.gen_range(0..12)) as f64) * 2f64.powi(self.rng.gen_range(0..36)),
             7 => f64::from_bits(self.rng.gen::<u64>()),
             8 => (self.rng.gen::<i64>() as f64) * 2f64.powi(self.rng.gen_range(-80..80)),
             _ => self.rng.gen_range(-1e6..1e6),
@@ -112,7 +116,27 @@ impl Gen {
         else { Expr::Value(self.value(ty, 1)) }
     }
 
+    /// structurally identical sub-expressions occur in real rules (`x == a or x == b`): with a small probability an
+    /// earlier sub-expression of the same type is used again
     pub fn expr(&mut self, ty: Ty, depth: u32) -> Expr {
+        if depth >= 1 && !self.stash.is_empty() && self.p(0.08) {
+            let k = self.rng.gen_range(0..self.stash.len());
+            if self.stash[k].0 == ty || ty == Ty::Any || self.p(0.1) { return self.stash[k].1.clone(); }
+        }
+        let e = self.expr_new(ty, depth);
+        if depth <= 3 && self.stash.len() < 12 && self.p(0.3) { self.stash.push((ty, e.clone())); }
+        e
+    }
+    pub fn clear_stash(&mut self) { self.stash.clear(); }
+
+    /// `n` operands joined by the same binary operator on the left spine (as the parser builds `a op b op c op d`)
+    fn chain(&mut self, n: usize, oty: Ty, d: u32, mk: fn(Expr, Expr) -> Expr) -> Expr {
+        let mut e = self.expr(oty, d);
+        for _ in 1..n { let r = self.expr(oty, d); e = mk(e, r); }
+        e
+    }
+
+    fn expr_new(&mut self, ty: Ty, depth: u32) -> Expr {
         let wrong = match self.profile { Profile::Types => 0.25, Profile::Arith => 0.03, _ => 0.08 };
         let ty = if ty == Ty::Any || self.p(wrong) { self.pick(&TYS) } else { ty };
         if depth == 0 || self.p(0.12) { return self.leaf(ty); }
@@ -120,7 +144,7 @@ impl Gen {
         let num = self.pick(&[Ty::Int, Ty::Float, Ty::Dec]);
         let ord = self.pick(&[Ty::Int, Ty::Float, Ty::Dec, Ty::DT, Ty::Dur]);
         // generic shapes valid for every type
-        match self.rng.gen_range(0..14) {
+        match self.rng.gen_range(0..16) {
             0 => return Expr::iif(self.expr(Ty::Bool, d), self.expr(ty, d), self.expr(ty, d)),
             // the cacheable function only sees arguments whose representation is canonical: whether two computed
             // Decimals / Floats / containers are "the same argument" depends on the scale or zero sign the arithmetic
@@ -131,7 +155,23 @@ impl Gen {
             3 if self.profile == Profile::Paths => { let key = self.pick(&["a", "A", "ab", "k", "facts"]);
                    let mut m = BTreeMap::new(); m.insert(key.to_string(), self.expr(ty, d)); m.insert("zz".to_string(), self.expr(Ty::Any, 0));
                    return Expr::index(Expr::Map(m), Index::Map(self.pick(&["a", "A", "ab", "k", "facts", "zz"]).to_string())); }
-            4 | 5 if self.profile == Profile::Paths => {
+            6 if depth >= 2 => {
+                   // a ladder `if c1 then .. else if c2 then .. else if c3 ..` (conditions may be of the wrong type)
+                   let n = self.rng.gen_range(2..5); let dd = d.min(2);
+                   let mut e = self.expr(ty, dd);
+                   for _ in 0..n { let c = if self.p(0.2) { self.expr(Ty::Any, 0) } else { self.expr(Ty::Bool, dd.min(1)) }; e = Expr::iif(c, self.expr(ty, dd.min(1)), e); }
+                   return e; }
+            7 if depth >= 2 && matches!(ty, Ty::Bool | Ty::Int | Ty::Float | Ty::Dec) => {
+                   let n = self.rng.gen_range(4..7); let dd = d.min(1);
+                   return match ty {
+                       Ty::Bool => match self.rng.gen_range(0..4) {
+                           0 => self.chain(n, Ty::Bool, dd, Expr::and), 1 => self.chain(n, Ty::Bool, dd, Expr::or),
+                           2 => { let l = self.expr(Ty::Any, dd); let mut e = Expr::eq(l.clone(), self.expr(Ty::Any, 0)); for _ in 1..n { e = Expr::or(e, Expr::eq(l.clone(), self.expr(Ty::Any, 0))); } e }
+                           _ => self.chain(n, Ty::Bool, dd, Expr::bitwise_xor) },
+                       Ty::Int => match self.rng.gen_range(0..4) { 0 => self.chain(n, Ty::Int, dd, Expr::add), 1 => self.chain(n, Ty::Int, dd, Expr::mult), 2 => self.chain(n, Ty::Int, dd, Expr::sub), _ => self.chain(n, Ty::Int, dd, Expr::bitwise_or) },
+                       _ => match self.rng.gen_range(0..3) { 0 => self.chain(n, ty, dd, Expr::add), 1 => self.chain(n, ty, dd, Expr::mult), _ => self.chain(n, ty, dd, Expr::sub) },
+                   }; }
+            4 | 5 if self.profile == Profile::Paths || (self.profile == Profile::Types && self.p(0.5)) => {
                    // a chain of 1..4 steps into the input (long vectors / wide maps, non-first non-last positions)
                    let mut e = if self.p(0.2) { Expr::reff("facts") } else { Expr::reff(self.pick(&["v", "m", "a", "zz"])) };
                    for _ in 0..self.rng.gen_range(1..5) {
@@ -143,7 +183,7 @@ impl Gen {
         }
         match ty {
             Ty::Any => unreachable!(),
-            Ty::Bool => match self.rng.gen_range(0..13) {
+            Ty::Bool => match self.rng.gen_range(0..15) {
                 0 => Expr::not(self.expr(Ty::Bool, d)),
                 1 => Expr::and(self.expr(Ty::Bool, d), self.expr(Ty::Bool, d)),
                 2 => Expr::or(self.expr(Ty::Bool, d), self.expr(Ty::Bool, d)),
@@ -158,6 +198,12 @@ impl Gen {
                 10 => if self.p(0.5) { Expr::some(self.expr(Ty::Any, d)) } else { Expr::none(self.expr(Ty::Any, d)) },
                 11 => { let k = self.rng.gen_range(0..3); let (l, r) = (self.expr(Ty::Bool, d), self.expr(Ty::Bool, d));
                         match k { 0 => Expr::bitwise_and(l, r), 1 => Expr::bitwise_or(l, r), _ => Expr::bitwise_xor(l, r) } }
+                12 => { // `x == a or x == b or x == c`: one subject tested against several candidates
+                        let n = self.rng.gen_range(2..6); let t = self.pick(&TYS); let l = self.expr(t, d.min(1));
+                        let mut e = Expr::eq(l.clone(), self.expr(t, 0));
+                        for _ in 1..n { let c = Expr::eq(l.clone(), self.expr(t, 0)); e = if self.p(0.8) { Expr::or(e, c) } else { Expr::and(e, c) }; }
+                        e }
+                13 => { let n = self.rng.gen_range(3..6); if self.p(0.5) { self.chain(n, Ty::Bool, d.min(1), Expr::and) } else { self.chain(n, Ty::Bool, d.min(1), Expr::or) } }
                 _ => self.leaf(Ty::Bool),
             },
             Ty::Int => match self.rng.gen_range(0..14) {
@@ -240,6 +286,7 @@ pub fn record(seed: u64, n: usize, profile: &str, depth: u32) -> Result<(Vec<J>,
     let mut panics = Vec::new();
     for k in 0..n {
         let ty = g.pick(&TYS);
+        g.clear_stash();
         let dd = 1 + (k as u32 % depth);
         let e = g.expr(ty, dd);
         let input = g.input();
